@@ -110,7 +110,7 @@ def gen_cases(tier, seed):
         if seq[0][0] != "conn":
             seq.insert(0, ("conn",))
         kinds = [rng.choice("tw") for _ in range(8)]
-        cases.append(("t%d" % i, ["P"], netfam.to_net(build(seq, http_takes_sid=False), kinds, rng, 0.15)))
+        cases.append(("t%d" % i, ["P"], netfam.to_net(build(seq, http_takes_sid=False), kinds, rng, 0.3)))
     dist["transport"] = nt
     return cases, dist
 
@@ -127,7 +127,7 @@ def net_oracle(case, io, mo):
         if i >= len(obs):
             fails.append(("driver-died", "step %d" % i)); break
         reply, inb, q, dump = obs[i]
-        if (op[0] == "disc" and reply != "Left") or (op[0] == "drop" and reply != "Dropped"):
+        if (op[0] == "disc" and reply != "Left") or (op[0] in ("drop", "reset") and reply != "Dropped"):
             fails.append(("disconnect-failed", "step %d: %s" % (i, reply)))
         sel = {}
         for sid, db in sels[i].items():
